@@ -1237,9 +1237,9 @@ fn main() {
     }
     let mut rng = Rng::new(a.seed);
     let (n_scen, n_mal, sweep_n) = match a.tier.as_str() {
-        "quick" => (500, 250, 4),
+        "quick" => (800, 350, 4),
         "search" => (3000, 1000, 3),
-        _ => (12000, 5000, 5),
+        _ => (40000, 15000, 5),
     };
     let (n_scen, n_mal) = match a.count {
         Some(c) => (c * 2 / 3, c / 3),
